@@ -144,3 +144,12 @@ prop('C20', 'auxiliary structures return exact nearest neighbours and enclosing 
   sp('epos6_contains_all', 'epos6_contains_all', 'T20.2 EPOS-6: whatever the initial guess (positive radius), the result contains every point'),
   sp('sphere_of_spheres_step', 'sphere_of_spheres_step', 'T20.2 one extension step of the sphere-of-spheres loop contains the old bounding sphere and the new sphere'),
 ])
+SC = ('MVoro.Proofs.Misc', 'MVoro.SchedProofs')
+def sc(name, orig, doc): return (name, SC[0], SC[1], orig, doc)
+prop('C09', 'results are a pure function of the input, independent of thread schedule', ['MVoro.Proofs.Misc'], [
+  sc('any_completion_order', 'runOrder_perm', 'T09.1 slot view: whatever order the n tasks complete in (any permutation) and whatever the slots held before, slot i ends up holding f i'),
+  sc('any_two_orders_agree', 'runOrder_any_two', 'T09.1 two completion orders give the same vector'),
+  sc('any_split_tree', 'collect_eq', 'T09.1 split view: any recursive splitting of the index range, concatenated in order, is the sequential map'),
+  sc('any_two_split_trees_agree', 'collect_any_two', 'T09.1 two split trees give the same vector'),
+  sc('flatten_after_collect', 'flattenCollect_eq', 'T09.1 filter_map + flatten after an indexed collect is the sequential filter_map + flatten: faces come out in cell order'),
+])
